@@ -274,16 +274,18 @@ package slip
 //@ pure-method LoadFormer.LoadForm
 
 // a (quote x) form
-//@ define quoted(f, x) = is(f, List) && len(as(f, List)) == 2 && as(f, List)[0] == box(quoteSymbol, Symbol) && as(f, List)[1] == x
+//@ define quoted(f, x, owner) = is(f, List) && live(as(f, List)) && idof(as(f, List)) != idof(owner) && len(as(f, List)) == 2 && as(f, List)[0] == box(quoteSymbol, Symbol) && as(f, List)[1] == x
 
 // The load form of a proper list is (list e1' ... en') where ei' is the load
 // form of ei; an element that is a symbol must be quoted: the form is
 // evaluated when it is loaded and a bare symbol would be read as a variable.
 //@ func slip.(List).LoadForm
 //@   property C19
+//@   option frame-arrays
 //@   ensures proper-list-form: (len(obj) < 2 || !is(obj[len(obj) - 1], Tail)) ==> (is(result0, List) && len(as(result0, List)) == len(obj) + 1 && as(result0, List)[0] == box(ListSymbol, Symbol))
-//@   ensures symbols-are-quoted: (len(obj) < 2 || !is(obj[len(obj) - 1], Tail)) ==> (forall k :: (0 <= k && k < len(obj) && is(obj[k], Symbol)) ==> quoted(as(result0, List)[k + 1], obj[k]))
+//@   ensures symbols-are-quoted: (len(obj) < 2 || !is(obj[len(obj) - 1], Tail)) ==> (forall k :: (0 <= k && k < len(obj) && is(obj[k], Symbol)) ==> quoted(as(result0, List)[k + 1], obj[k], as(result0, List)))
 //@   ensures nil-stays-nil: (len(obj) < 2 || !is(obj[len(obj) - 1], Tail)) ==> (forall k :: (0 <= k && k < len(obj) && obj[k] == nil) ==> as(result0, List)[k + 1] == nil)
-//@   loop rangeindex+1<len(obj): invariant shape: len(form) == len(obj) + 1 && fresh(form) && form[0] == box(ListSymbol, Symbol)
+//@   loop rangeindex+1<len(obj): invariant shape: len(form) == len(obj) + 1 && fresh(form) && live(form) && form[0] == box(ListSymbol, Symbol)
+//@   loop rangeindex+1<len(obj): invariant rest-still-nil: forall k :: (rangeindex < k && k < len(obj)) ==> form[k + 1] == nil
 //@   loop rangeindex+1<len(obj): invariant nil-stays-nil: forall k :: (0 <= k && k <= rangeindex && obj[k] == nil) ==> form[k + 1] == nil
-//@   loop rangeindex+1<len(obj): invariant symbols-are-quoted: forall k :: (0 <= k && k <= rangeindex && is(obj[k], Symbol)) ==> quoted(form[k + 1], obj[k])
+//@   loop rangeindex+1<len(obj): invariant symbols-are-quoted: forall k :: (0 <= k && k <= rangeindex && is(obj[k], Symbol)) ==> quoted(form[k + 1], obj[k], form)
